@@ -57,6 +57,29 @@ Definition open_store (p : params) (hv ht hm : bool) (limit cthr : Z) (segs : li
      s_segs := map (fun g => {| sg_id := sg_id g; sg_info := sg_info g; sg_T := sg_T g; sg_files := sg_files g; sg_cached := false |}) segs;
      s_counter := counter; s_limit := limit; s_cthr := cthr; s_closed := false |}.
 
+(** Reopening a directory: [listing] gives, per identifier that names ANY segment-like file, the state
+    of its four files (hybrid, vector, text, metadata); [known] = content of every segment ever written
+    (what a complete file holds).  A segment is registered iff its hybrid file exists; the counter
+    restarts at the largest identifier of any file name, registered or not. *)
+Definition reopen_counter (ids : list Z) : Z := fold_left Z.max ids 0.
+Definition reopen_segs (p : params) (hv ht hm : bool) (known : list (Z * segment))
+           (listing : list (Z * (fstate * fstate * fstate * fstate))) : list segment :=
+  flat_map (fun l =>
+      let '(id, (fh, fv, ft, fm)) := l in
+      match fh with
+      | FMissing => []
+      | _ =>
+        match find (fun x => fst x =? id) known with
+        | Some (_, g) => [{| sg_id := id; sg_info := sg_info g; sg_T := sg_T g; sg_files := (fh, fv, ft, fm); sg_cached := false |}]
+        | None => [{| sg_id := id; sg_info := []; sg_T := fresh_triple p hv ht hm;
+                      sg_files := (FBroken, FBroken, FBroken, FBroken); sg_cached := false |}]
+        end
+      end) listing.
+Definition reopen_store (p : params) (hv ht hm : bool) (limit cthr : Z) (known : list (Z * segment))
+           (listing : list (Z * (fstate * fstate * fstate * fstate))) : store :=
+  open_store p hv ht hm limit cthr (isort (fun g => sg_id g) (reopen_segs p hv ht hm known listing))
+             (reopen_counter (map fst listing)).
+
 Definition set_last {A} (l : list A) (x : A) : list A := removelast l ++ [x].
 Definition mutable (s : store) : memtable := last (s_queue s) new_memtable.
 
